@@ -3,6 +3,7 @@
 import json
 ids=[json.loads(l)['id'] for l in open('/verif/properties.jsonl')]
 claimed = {
+ "C19": ("feeder -> channel -> real PublishIPFIXMessages -> broker stub behind the library's SetSaramaProducer seam that stalls its input, encodes values late and delays acks; conservation / order / framing / protobuf-field model and the real consumer-side decoder (modest: the simulator-relevant behaviour is back-pressure, ordering and the lifetime of the payload buffer)", "6 C19"),
  "C20": ("cmd/collector compiled as an importable package by the overlay: arrival task, HTTP client tasks on the real handlers, reset task under the seeded baton scheduler (sim layer) and the race detector (race layer); pre-fill to and beyond the 4096 cap; porcupine against a bounded FIFO window; rendered-field check", "6 C20"),
  "C18": ("real exporter and real collector TLS/DTLS handshakes (crypto/tls, pion/dtls) over the simulated network in fake time: certificate zoo with fixed validity windows, bubble clock moved before / inside / after them, trust-matrix model; adversarial peers (TLS server capped at 1.1/1.2/1.3, plaintext sender, plaintext listener), re-use of one client configuration object", "6 C18"),
  "C14": ("real exporter with its refresh / connection-check goroutines in fake time: sends on and 1 ns around ticks, first template after the first tick, peer FIN, write error on a refresh datagram, concurrent repeated Close, sends after Close; tap + independent decoder + goroutine census (sim layer) and race detector (race layer)", "6 C14"),
